@@ -1,3 +1,4 @@
+import os
 """MIR-level inlining of helper functions that are not part of the reviewed vocabulary.
 
 The rules anchor on the functions that exist in the tree they were written for (`baseline_fns.json`, frozen by
@@ -281,4 +282,48 @@ def inline_new_helpers(F, vocab=None, rounds=6, keep=()):
         if not direct and not indirect:
             gone.add(c)
     F.fully_inlined = gone
+    return done
+
+
+LOCALS = os.path.join(os.path.dirname(os.path.abspath(__file__)), 'baseline_locals.json')
+
+
+def user_locals(fn):
+    """(name, type) of the user-named locals of a function in MIR order (parameters first)"""
+    return [(l.get('name'), (l.get('ty') or '').strip()) for l in fn.locals if l.get('name') and not str(l.get('name')).startswith('_')]
+
+
+def canonical_local_names(F):
+    """Rules address a few locals by their source name (`w`, `k`, `ct`, `count_group`).  A rename must not matter: every
+    function of the reviewed vocabulary gets its reviewed names back -- parameters by position, locals per type by order
+    of declaration when the function still has as many named locals of that type as it had when reviewed.  Purely
+    cosmetic (names select which local a rule looks at; what is then compared is its data flow)."""
+    import json as _j
+    if not os.path.exists(LOCALS):
+        return {}
+    table = _j.load(open(LOCALS))
+    done = {}
+    for q, fn in F.fns.items():
+        ref = table.get(q)
+        if not ref:
+            continue
+        cur = [(k_, l) for k_, l in enumerate(fn.locals) if l.get('name') and not str(l.get('name')).startswith('_')]
+        by_ty_ref, by_ty_cur = {}, {}
+        for n_, t_ in ref:
+            by_ty_ref.setdefault(t_, []).append(n_)
+        for k_, l in cur:
+            by_ty_cur.setdefault((l.get('ty') or '').strip(), []).append(k_)
+        ren = {}
+        for t_, idxs in by_ty_cur.items():
+            names = by_ty_ref.get(t_)
+            if names and len(names) == len(idxs):
+                for k_, n_ in zip(idxs, names):
+                    if fn.locals[k_]['name'] != n_:
+                        ren[k_] = n_
+        if ren:
+            taken = {l.get('name') for k_, l in enumerate(fn.locals) if k_ not in ren}
+            if not (set(ren.values()) & taken):
+                for k_, n_ in ren.items():
+                    fn.locals[k_]['name'] = n_
+                done[q] = len(ren)
     return done
